@@ -11,9 +11,9 @@
 using namespace sim; using namespace msggen;
 
 enum { ST_RUNS, ST_EVALS, ST_ACCEPTED, ST_REJECTED, F_TRUNC, F_BITFLIP, F_WORD, F_NUL, F_SPLICE, F_EXTEND, F_MULTI, F_EMPTY, F_DELETE, F_DUP,
-       P_ACC_DAMAGED, P_ACC_BLOB, P_ACC_STRING, P_ACC_ARRAY, P_ACC_UNKNOWN_TAG, P_LEN_LT_N, P_HUGE_BLOB_LEN, P_ACC_NOARGS, ST_N };
+       P_ACC_DAMAGED, P_ACC_BLOB, P_ACC_STRING, P_ACC_ARRAY, P_ACC_UNKNOWN_TAG, P_LEN_LT_N, P_HUGE_BLOB_LEN, P_ACC_NOARGS, P_BUNDLE_BASE, ST_N };
 static const char *STAT_NAMES[ST_N] = { "runs", "evaluations", "buffers_accepted", "buffers_rejected", "fault.truncation", "fault.bit_flip", "fault.word_overwritten", "fault.nul_byte_made_nonzero", "fault.splice_with_next_message", "fault.garbage_appended", "fault.multi_fault_sequence", "fault.empty_buffer", "fault.byte_lost", "fault.byte_duplicated",
-       "probe.damaged_buffer_accepted", "probe.accepted_with_blob", "probe.accepted_with_string", "probe.accepted_with_brackets", "probe.accepted_with_unknown_tag", "probe.reported_length_shorter_than_buffer", "probe.blob_length_field_ge_0x7fffffff", "probe.accepted_without_arguments" };
+       "probe.damaged_buffer_accepted", "probe.accepted_with_blob", "probe.accepted_with_string", "probe.accepted_with_brackets", "probe.accepted_with_unknown_tag", "probe.reported_length_shorter_than_buffer", "probe.blob_length_field_ge_0x7fffffff", "probe.accepted_without_arguments", "probe.bundle_as_base_traffic" };
 
 enum { W_TRUNC = 0, W_BIT, W_WORD, W_NUL, W_SPLICE, W_EXTEND, W_BYTE, W_DELETE, W_DUP, W_NKINDS };
 static const uint32_t WORDS[] = {0, 1, 3, 4, 0x7fffffffu, 0x80000000u, 0xfffffff0u, 0xfffffff4u, 0xfffffff8u, 0xfffffffcu, 0xfffffffdu, 0xfffffffeu, 0xffffffffu};
@@ -59,7 +59,8 @@ struct WireWorld : World {
     std::vector<Op> simpler(const Op &op) const override { return op.kind == G_FAULT ? std::vector<Op>{} : msggen::simpler(op); }
     void gen(const std::string &, Rng &, Rng &pr, Knobs &k, Plan &p) override {
         k.clear();
-        gen_message(pr, p, pr.chance(0.85) ? 5 : 14, pr.chance(0.9) ? 24 : 120);
+        if (pr.chance(0.2)) gen_bundle(pr, p, 2, 40);    // bundles are traffic too (only the length function applies to them)
+        else gen_message(pr, p, pr.chance(0.85) ? 5 : 14, pr.chance(0.9) ? 24 : 120);
         if (pr.chance(0.6)) gen_message(pr, p, 4, 20);
         int nf = pr.chance(0.5) ? 0 : 2 + (int)pr.below(3);
         for (int i = 0; i < nf; i++) { Op o; o.kind = G_FAULT; o.a[0] = (int64_t)pr.below(W_NKINDS); o.a[1] = (int64_t)pr.below(600); o.a[2] = (int64_t)pr.next(); p.push_back(o); }
@@ -136,14 +137,17 @@ struct WireWorld : World {
     Result exec(const std::string &, const Knobs &, const Plan &plan, Choices &) override {
         Result res; stat_add(ST_RUNS);
         // split the plan: message ops up to the second ADDR, the rest of the message ops, fault ops
-        Plan m1, m2, faults; int addrs = 0;
-        for (auto &op : plan) { if (op.kind == G_FAULT) { faults.push_back(op); continue; } if (op.kind == G_ADDR) addrs++; if (op.kind == G_BOPEN || op.kind == G_BCLOSE) continue; (addrs <= 1 ? m1 : m2).push_back(op); }
+        Plan m1, m2, faults; int addrs = 0; bool bundle = !plan.empty() && plan[0].kind == G_BOPEN; int depth = 0; bool first_done = false;
+        for (auto &op : plan) { if (op.kind == G_FAULT) { faults.push_back(op); continue; }
+            if (bundle && !first_done) { m1.push_back(op); if (op.kind == G_BOPEN) depth++; if (op.kind == G_BCLOSE && --depth == 0) first_done = true; continue; }
+            if (op.kind == G_ADDR) addrs++; if (op.kind == G_BOPEN || op.kind == G_BCLOSE) continue; ((addrs <= 1 && !bundle) ? m1 : m2).push_back(op); }
         std::vector<GElem> e1 = build(m1), e2 = build(m2);
         if (e1.empty()) { res.trace_hash = 1; return res; }
-        std::vector<char> enc = encode_msg(e1[0].msg); if (enc.size() > 512 || enc.empty()) { res.trace_hash = 2; return res; }
+        std::vector<char> enc = encode(e1[0]); if (enc.size() > 512 || enc.empty()) { res.trace_hash = 2; return res; }
+        if (e1[0].is_bundle) stat_add(P_BUNDLE_BASE);
         std::vector<unsigned char> base(enc.begin(), enc.end()), next;
         if (!e2.empty()) { std::vector<char> x = encode_msg(e2[0].msg); if (x.size() <= 512) next.assign(x.begin(), x.end()); }
-        uint64_t shape = mix64(base.size(), hash_str(e1[0].msg.types())); for (auto &a : e1[0].msg.args) shape = mix64(shape, a.s.size() + a.blob.size()); for (auto &f : faults) shape = mix64(shape, f.a[0] * 7 + f.a[1]);
+        uint64_t shape = mix64(base.size(), hash_str(e1[0].is_bundle ? std::string("#bundle") + std::to_string(e1[0].kids.size()) : e1[0].msg.types())); for (auto &a : e1[0].msg.args) shape = mix64(shape, a.s.size() + a.blob.size()); for (auto &f : faults) shape = mix64(shape, f.a[0] * 7 + f.a[1]);
         res.shape_hash = shape; size_t n = base.size(); char what[160];
         uint64_t acc0 = 0; (void)acc0;
         // the undamaged message must be accepted and decode to itself (sanity of the harness and of the validator on valid traffic)
